@@ -179,9 +179,13 @@ def nesting(d: int, kind: int, close: bool) -> bool:
 
 # ---- family 5: variables, operation name, resolver failures ---------------------------------------
 VAR_DOC = ("query A($i: Int, $f: Float = 1.5, $s: String, $b: Boolean, $d: ID, $c: Color, $l: [Int!], $n: Inp, $o: One, $r: Int!) "
-           "{ int(x: $i) float(x: $f) str(x: $s) bool(x: $b) id(x: $d) color(x: $c) list(x: $l) inp(x: $n) one(x: $o) nn } "
+           "{ int(x: $i) float(x: $f) str(x: $s) bool(x: $b) id(x: $d) color(x: $c) list(x: $l) inp(x: $n) one(x: $o) nn r: int(x: $r) } "
            "query B { int }")
 VAR_NAMES = ["i", "f", "s", "b", "d", "c", "l", "n", "o", "r"]
+# (the document must be valid, otherwise no request ever reaches variable coercion: until the
+# third build round $r was declared but unused, so every request ended at validation)
+from graphql import validate as _validate, parse as _parse
+assert _validate(SCHEMA, _parse(VAR_DOC)) == [], _validate(SCHEMA, _parse(VAR_DOC))
 
 
 def variables_any(kind: int, iv: int, fv: float, sv: str, bv: bool, opname: Optional[str], present_r: bool, *, which: int) -> bool:
